@@ -113,9 +113,11 @@ func combos(regime string, v any) ([]refcalc.Combo, error) {
 			c.Surcharge = &d
 		}
 		country := regime
-		if c.Country != "" {
+		if c.Country != "" && pubdata.HasRegime(c.Country) {
 			country = c.Country
 		}
+		// a country without a published regime says nothing about the category:
+		// whether it is retained is what the document's own regime says
 		c.Retained = pubdata.Retained(country, c.Cat)
 		out = append(out, c)
 	}
